@@ -80,3 +80,38 @@ template <typename T> struct gen {
   std::default_sentinel_t end() const { return {}; }
 };
 }  // namespace vt
+
+// vt::ytask<T, Lazy>: awaitable task whose promise also accepts co_yield (like the repository's coro::task):
+// the consumer sees each yielded value at a suspension and the co_return value / exception at the end.
+namespace vt {
+template <typename T, bool Lazy> struct ytask;
+template <typename T, bool Lazy> struct ytask_promise {
+  std::optional<T> cur;      // last yielded value
+  std::optional<T> value;    // co_return value
+  std::exception_ptr ex;
+  ytask<T, Lazy> get_return_object() noexcept;
+  auto initial_suspend() const noexcept { struct A { bool await_ready() const noexcept { return !Lazy; } void await_suspend(std::coroutine_handle<>) const noexcept {} void await_resume() const noexcept {} }; return A{}; }
+  std::suspend_always final_suspend() const noexcept { return {}; }
+  std::suspend_always yield_value(T v) { cur = std::move(v); return {}; }
+  void return_value(T v) { value = std::move(v); }
+  void unhandled_exception() noexcept { ex = std::current_exception(); }
+};
+template <typename T, bool Lazy = false> struct ytask {
+  using promise_type = ytask_promise<T, Lazy>;
+  std::coroutine_handle<promise_type> h;
+  explicit ytask(std::coroutine_handle<promise_type> hh) : h(hh) {}
+  ytask(ytask&& o) noexcept : h(std::exchange(o.h, {})) {}
+  ytask(ytask const&) = delete;
+  ~ytask() { if (h) h.destroy(); }
+  bool await_ready() const noexcept { return h.done(); }
+  void await_suspend(std::coroutine_handle<>) noexcept {}
+  T await_resume() {
+    while (!h.done()) h.resume();
+    if (h.promise().ex) std::rethrow_exception(h.promise().ex);
+    return std::move(*h.promise().value);
+  }
+};
+template <typename T, bool Lazy> ytask<T, Lazy> ytask_promise<T, Lazy>::get_return_object() noexcept {
+  return ytask<T, Lazy>{std::coroutine_handle<ytask_promise<T, Lazy>>::from_promise(*this)};
+}
+}  // namespace vt
